@@ -122,6 +122,10 @@ func (g *G) textParts() []Part {
 			ps = append(ps, Part{Static: " "})
 		}
 	}
+	if ps[len(ps)-1].Expr != "" && g.chance(4) {
+		// a blank between the last interpolation of the line and the line break
+		ps = append(ps, Part{Static: g.pick(" ", "  ", "\t")})
+	}
 	// a text line may not start with "#{" (lexed as an id), '%', '.', '#', '-', '=', '/', ':', '!', '\\', '<', '>' …
 	if ps[0].Expr != "" || ps[0].EscHash || strings.ContainsAny(ps[0].Static[:1], "%.#-=/:!\\<>[{ \t") {
 		ps = append([]Part{{Static: "t: "}}, ps...)
@@ -172,6 +176,11 @@ func (g *G) attrs(n *Node) {
 		case 4:
 			a.Kind = ACond
 			a.Expr = g.boolFrag()
+			if g.chance(4) {
+				// white space inside the braces, in front of and behind the condition (also a line break, in a list
+				// written over several lines)
+				a.Expr = g.pick(" ", "  ", " \t", "\n\t\t\t\t") + a.Expr + g.pick("", " ", "  ")
+			}
 		}
 		n.Attrs = append(n.Attrs, a)
 	}
@@ -189,6 +198,11 @@ func (g *G) attrs(n *Node) {
 		n.ClassAttr = g.pick("k1", "k1 k2")
 	} else if g.O.ClassExprs && g.chance(6) {
 		n.ClassExprs = []string{g.pick("s0", `"c"`, "xs"), g.pick("s1", "mb", `"d e"`)}
+		if g.chance(3) {
+			// one expression only, next to a static class that is spelled like it
+			n.ClassExprs = []string{g.pick("s0", "xs", "mb")}
+			n.Classes = append(n.Classes, n.ClassExprs[0])
+		}
 	}
 	if g.O.AttributesCmd && g.chance(8) {
 		n.AttrsCmd = g.pick("m0", "mb", "m0, mb")
@@ -271,7 +285,10 @@ func (g *G) Block(depth int) []*Node {
 			case 0:
 				out = append(out, &Node{Kind: KScript, Expr: g.pick("fe1(s0)", "fe2(s1)"), Unescaped: true})
 			case 1:
-				bad := &Node{Kind: KElem, Tag: "b", ClassExprs: g.pick2([]string{"s0", "n0"}, []string{"n0", "s1"}, []string{"xs", "n0"}), Inline: &Node{Kind: KText, Parts: []Part{{Static: "bad class arg"}}}}
+				bad := &Node{Kind: KElem, Tag: "b", ClassExprs: g.pick2([]string{"s0", "n0"}, []string{"n0", "s1"}, []string{"xs", "n0"}, []string{"n0"}), Inline: &Node{Kind: KText, Parts: []Part{{Static: "bad class arg"}}}}
+				if len(bad.ClassExprs) == 1 && g.chance(2) {
+					bad.Classes = []string{"n0"} // a static class spelled like the expression
+				}
 				switch g.R.Intn(4) {
 				case 0:
 					bad.AttrsCmd = "m0, mb" // the failing helper call is followed by another helper call of the same tag, which succeeds
@@ -293,7 +310,7 @@ func (g *G) Block(depth int) []*Node {
 		if g.O.MarkerHeavy && g.R.Intn(3) == 0 {
 			k = []int{0, 1, 1, 2, 3}[g.R.Intn(5)]
 		}
-		if g.O.Switch && g.R.Intn(4) == 0 {
+		if g.O.Switch && g.R.Intn(7) == 0 {
 			k = 13
 		}
 		if depth <= 0 && (k == 1 || k == 4 || k == 5 || k == 9 || k == 10 || k == 13) {
@@ -310,6 +327,11 @@ func (g *G) Block(depth int) []*Node {
 					e.NukeOuter = true
 				}
 				out = append(out, e)
+				if g.O.MarkerHeavy && g.chance(2) {
+					// `<` on an element that has no inside removes nothing; what follows may start with white space of its own
+					e.NukeInner = true
+					out = append(out, &Node{Kind: KScript, Expr: g.pick("s0", "s1", `"  two blanks first"`)})
+				}
 				continue
 			}
 			if g.R.Intn(4) > 0 {
@@ -414,6 +436,9 @@ func (g *G) Block(depth int) []*Node {
 		case 9:
 			if g.layoutsAvail > 0 && !g.inLoop {
 				r := &Node{Kind: KRender, Callee: fmt.Sprintf("L%d%s", g.R.Intn(g.layoutsAvail), Args)}
+				if g.chance(5) {
+					r.Pad = "\t" // a tab, not a blank, between the command and its argument
+				}
 				if g.R.Intn(3) > 0 {
 					r.Kids = g.Block(depth - 1)
 					if g.O.UnescBlocks && g.chance(3) {
@@ -429,7 +454,7 @@ func (g *G) Block(depth int) []*Node {
 		case 11:
 			if g.allowChildren {
 				g.usedChildren = true
-				out = append(out, &Node{Kind: KChildren, Unescaped: g.O.RenderHeavy && g.chance(4)})
+				out = append(out, &Node{Kind: KChildren, Unescaped: g.O.RenderHeavy && g.chance(4), Pad: g.pick("", "", "", "\t", " ", "()")})
 			}
 		case 12:
 			out = append(out, &Node{Kind: KDoctype})
@@ -493,7 +518,7 @@ func (g *G) Block(depth int) []*Node {
 // as before)
 func endsWithSwallower(n *Node) bool {
 	switch n.Kind {
-	case KRubyComment, KIf, KFor:
+	case KRubyComment, KIf, KFor, KSwitch:
 		return true
 	case KElem, KRender, KComment:
 		if len(n.Kids) > 0 {
